@@ -619,6 +619,10 @@ func (s *Store) Open() (retErr error) {
 	// database from the Raft snapshot store because the contents are logically
 	// the same.
 	removeDBFiles := true
+	// A node recovery (peers.json present) rebuilds the newest snapshot from the log and then
+	// deletes the log, so the database must be restored from that snapshot: the fast path
+	// below, which keeps the existing SQLite file and skips the restore, must not be taken.
+	recovering := fsutil.PathExists(s.peersPath)
 	if err := func() error {
 		if snapshotStore.Len() == 0 {
 			return nil
@@ -634,7 +638,7 @@ func (s *Store) Open() (retErr error) {
 			}
 		}()
 
-		if !fsutil.PathExists(s.cleanSnapshotPath) {
+		if recovering || !fsutil.PathExists(s.cleanSnapshotPath) {
 			return nil
 		}
 		fp := &FileFingerprint{}
@@ -748,7 +752,7 @@ func (s *Store) Open() (retErr error) {
 	}
 
 	// Request to recover node?
-	if fsutil.PathExists(s.peersPath) {
+	if recovering {
 		s.logger.Printf("attempting node recovery using %s", s.peersPath)
 		config, err := raft.ReadConfigJSON(s.peersPath)
 		if err != nil {
